@@ -103,8 +103,6 @@ func isOpaqueNamed(t types.Type) bool {
 	switch o.Pkg().Path() {
 	case "math/big":
 		return true
-	case "sync":
-		return true
 	case "sync/atomic", "reflect", "time", "os", "math/rand", "hash", "crypto/rand", "runtime":
 		_, isStruct := n.Underlying().(*types.Struct)
 		return isStruct
